@@ -1,7 +1,142 @@
-//! op "str" (stub: answers bad-op until the engine is built)
+//! op "str": `FencedString` driven directly through the hook wrappers, plus the escape handlers.
+//! Strings travel as arrays of code points.  A FencedString is shown as
+//! `<code points>|<len>|<table length>|<probe>` where the table length is recovered from `size()` and the
+//! probe is `substr(i, i+1)` for every `i < len` (`!` where that panics) — the char-start table is private,
+//! this is what can be seen of it from outside.
 
 use serde_json::{json, Value};
+use std::panic::{catch_unwind, AssertUnwindSafe};
+use xray::builtin::verif_hooks::fstring as hf;
+use xray::builtin::verif_hooks::strs as hs;
+use xray::util::fenced_string::FencedString;
 
-pub fn op(_req: &Value) -> Value {
-    json!({"bad-op": true})
+fn text(v: &Value) -> String {
+    v.as_array()
+        .map(|a| {
+            a.iter()
+                .map(|c| char::from_u32(c.as_u64().unwrap_or(0) as u32).unwrap_or('?'))
+                .collect()
+        })
+        .unwrap_or_default()
+}
+
+fn cps(s: &str) -> String {
+    if s.is_empty() {
+        "_".to_string()
+    } else {
+        s.chars()
+            .map(|c| (c as u32).to_string())
+            .collect::<Vec<_>>()
+            .join(",")
+    }
+}
+
+fn show(s: &FencedString) -> String {
+    let len = hf::len(s);
+    let empty = hf::size(&FencedString::default());
+    let tablen = (hf::size(s) - empty - hs::bytes(s)) / std::mem::size_of::<usize>();
+    let mut probe = Vec::new();
+    for i in 0..len {
+        match catch_unwind(AssertUnwindSafe(|| hf::substr(s, i, Some(i + 1)))) {
+            Ok(t) => probe.push(cps(&t)),
+            Err(_) => probe.push("!".to_string()),
+        }
+    }
+    format!(
+        "{}|{}|{}|{}",
+        cps(hf::as_str(s)),
+        len,
+        tablen,
+        if probe.is_empty() {
+            "_".to_string()
+        } else {
+            probe.join(";")
+        }
+    )
+}
+
+fn opt(v: &Value) -> Option<usize> {
+    v.as_u64().map(|x| x as usize)
+}
+
+pub fn op(req: &Value) -> Value {
+    let f = req["f"].as_str().unwrap_or("");
+    let s = || hf::from_string(text(&req["s"]));
+    let t = || hf::from_string(text(&req["t"]));
+    let a = || req["a"].as_u64().unwrap_or(0) as usize;
+    let b = || opt(&req["b"]);
+    let r: String = match f {
+        "from" => show(&s()),
+        "bytes" => {
+            let x = text(&req["s"]);
+            if x.is_empty() {
+                "_".to_string()
+            } else {
+                x.bytes().map(|b| b.to_string()).collect::<Vec<_>>().join(",")
+            }
+        }
+        "len" => hf::len(&s()).to_string(),
+        "substring" => show(&hf::substring(&s(), a(), b())),
+        "substr" => cps(&hf::substr(&s(), a(), b())),
+        "push" => {
+            let mut x = s();
+            hf::push(&mut x, &t());
+            show(&x)
+        }
+        "add" => show(&hs::add(&s(), &t())),
+        "push_ascii" => {
+            let mut x = s();
+            hs::push_ascii(&mut x, &text(&req["t"]));
+            show(&x)
+        }
+        "sub_push" => {
+            let mut x = hf::substring(&s(), a(), b());
+            hf::push(&mut x, &t());
+            show(&x)
+        }
+        "push_sub" => {
+            let x = hf::substring(&s(), a(), b());
+            let mut y = t();
+            hf::push(&mut y, &x);
+            show(&y)
+        }
+        "sub_sub" => {
+            let x = hf::substring(&s(), a(), b());
+            show(&hf::substring(
+                &x,
+                req["c"].as_u64().unwrap_or(0) as usize,
+                opt(&req["d"]),
+            ))
+        }
+        "sub_len" => hf::len(&hf::substring(&s(), a(), b())).to_string(),
+        // what the Rust standard library says about the case mapping (a parameter of the model)
+        "stdcase" => {
+            let x = text(&req["s"]);
+            let (flag, mapped) = if req["upper"].as_bool() == Some(true) {
+                (x.chars().all(char::is_uppercase), x.to_uppercase())
+            } else {
+                (x.chars().all(char::is_lowercase), x.to_lowercase())
+            };
+            return json!({"flag": flag, "mapped": cps(&mapped)});
+        }
+        "casemap" => {
+            let x = s();
+            let r = if req["upper"].as_bool() == Some(true) {
+                hf::to_uppercase(&x)
+            } else {
+                hf::to_lowercase(&x)
+            };
+            match r {
+                None => "same".to_string(),
+                Some(r) => show(&r),
+            }
+        }
+        "escapes" => match hs::apply_escapes(&text(&req["s"])) {
+            Ok(r) => cps(&r),
+            Err(_) => "error BadEscapeSequence".to_string(),
+        },
+        "brace" => cps(&hs::apply_brace_escape(&text(&req["s"]))),
+        _ => return json!({"bad-op": true}),
+    };
+    json!({ "r": r })
 }
